@@ -274,7 +274,14 @@ def _read_header(fmt, folder, stem, table):
         first = _read(sheet, probes)
     finally:
         wb.close()
+    # the two later readings re-open the file twice: every case of the quick tier, every sixth of the (17 times larger) thorough tier
+    _LATER[0] += 1
+    if _LATER[1] != "quick" and _LATER[0] % 6:
+        return [S(k) for k in probes], first
     return [S(k) for k in probes], _later_readings(fmt, path, probes, first)
+
+
+_LATER = [0, "quick"]
 
 
 def _later_readings(fmt, path, probes, first):
@@ -389,6 +396,7 @@ def _observe_bind(fmt, f, folder, inp, W):
 
 
 def observe(ctx, inp):
+    _LATER[1] = ctx.tier
     logging.disable(logging.CRITICAL)           # WBNav.name logs every missing cell
     fmt = inp["fmt"]
     f = 0 if fmt == "csv" else 1
